@@ -425,7 +425,9 @@ func (s *c38Sim) deliver(ci int, who ibctesting.SenderAccount, msg sdk.Msg) *kit
 	return s.ch[ci].Deliver(who, msg)
 }
 
-func (s *c38Sim) relay(ci int, msg sdk.Msg) *kit.Outcome { return s.deliver(ci, relayerOf(s.ch[ci]), msg) }
+func (s *c38Sim) relay(ci int, msg sdk.Msg) *kit.Outcome {
+	return s.deliver(ci, relayerOf(s.ch[ci]), msg)
+}
 
 func res(o *kit.Outcome) string {
 	if o.OK() {
@@ -631,7 +633,9 @@ func (s *c38Sim) hostEndsFor(port, id string) []string {
 			out = append(out, k)
 		}
 	}
-	sort.Slice(out, func(i, j int) bool { return chanNum(strings.SplitN(out[i], "/", 2)[1]) < chanNum(strings.SplitN(out[j], "/", 2)[1]) })
+	sort.Slice(out, func(i, j int) bool {
+		return chanNum(strings.SplitN(out[i], "/", 2)[1]) < chanNum(strings.SplitN(out[j], "/", 2)[1])
+	})
 	return out
 }
 
